@@ -413,7 +413,7 @@ def _part_b(task, rec):
     runs = [None] if not boot else boot
     for bv in runs:
         clean_real()
-        extra = {}
+        extra = {'max_iterations': 40}   # the trace is what matters here, not convergence
         if bv is not None:
             extra['bootstrap_samples'] = 1
         b = make_biogeme(start=tuple(task['start']), bounds=BOUNDS[task['bounds']], algo=task['algo'], extra=extra)
